@@ -32,6 +32,7 @@ pub fn check(sc: &Scenario, ex: &mut Exec) -> (Verdict, Option<String>) {
         Err(v) => return (v, None),
     };
     let scan = ir::scan(&compiled.dp);
+    ex.stats.probe(&format!("key_releases_{}", scan.thresholds.len().min(3)));
     if !scan.unrecognised.is_empty() {
         return (Verdict::Skip("unrecognised_noise_pattern".into()), None);
     }
